@@ -81,7 +81,12 @@ pub fn prop() -> HistProp {
         id: "C02",
         level: "exploration",
         profile: CfgProfile::general(),
-        weights: Weights::trading(),
+        weights: {
+            let mut w = Weights::trading();
+            w.rewire = 2;
+            w.vcfg = 1;
+            w
+        },
         min_ops: 4,
         max_ops: (40, 100),
         cases: (12_000, 400_000),
